@@ -4,7 +4,7 @@ CONSTANTS
   Ttl <- TtlC
   Quota = 2
   W = 2
-  QSize = 2
+  QSize = 1
   MaxNow = 7
   KF_C10_LostHandoff = FALSE
   Driver = FALSE
